@@ -902,6 +902,23 @@ func (c *c12) xmlCase(idx int, cs c12Case, t model.TypeDef, want, desc string, r
 	if cs.leaf == "lr" {
 		doc += "<u16>" + cs.val + "</u16>"
 	}
+	// the device holds more than the leaf under test: two sibling leaf-lists in the same container, one before it (document
+	// order is the device's business) and one after
+	sibs := map[string][]string{"ll-str": {"sib1", "sib2"}, "ll-i8": {"-7", "7"}}
+	delete(sibs, cs.leaf)
+	sibDoc := func(name string) string {
+		out := ""
+		for _, v := range sibs[name] {
+			out += "<" + name + ">" + v + "</" + name + ">"
+		}
+		return out
+	}
+	if idx%3 != 0 {
+		doc = strings.Replace(doc, `<types xmlns="urn:verif:a">`, `<types xmlns="urn:verif:a">`+sibDoc("ll-str"), 1)
+		doc += sibDoc("ll-i8")
+	} else {
+		sibs = nil
+	}
 	doc += `</types></data>`
 	drv := fixture.NewFakeDrv()
 	drv.GetConfigDoc = doc
@@ -938,6 +955,24 @@ func (c *c12) xmlCase(idx int, cs c12Case, t model.TypeDef, want, desc string, r
 	}
 	if g, err := c.canon(cs.leaf, got); err != nil || g != want {
 		res.Violate(fmt.Sprintf("C12/xml-input-denotes-another-value/%s", cs.leaf), "%s: the adapter produced %q (want the datum %s)", what, got, want)
+	}
+	for name, vals := range sibs {
+		sp := model.Parse("/types/" + name).String()
+		sgot, sfound := "", false
+		for _, n := range rsp.GetNotification() {
+			for _, u := range n.GetUpdate() {
+				if model.FromPb(u.GetPath()).String() == sp {
+					sgot, sfound = model.TvString(u.GetValue()), true
+				}
+			}
+		}
+		swant := "LL:" + strings.Join(vals, ",")
+		res.Count("xml_sibling_leaflists_compared", 1)
+		if !sfound {
+			res.Violate("C12/xml-input-lost/sibling-leaf-list", "%s: the adapter produced no update for the sibling leaf-list %s", what, name)
+		} else if g, err := c.canon(name, sgot); err != nil || g != swant {
+			res.Violate("C12/xml-input-denotes-another-value/sibling-leaf-list", "%s: the adapter produced %q for the sibling leaf-list %s (the device holds %s)", what, sgot, name, swant)
+		}
 	}
 }
 
